@@ -54,10 +54,12 @@ type c44Log struct {
 	closed map[int]bool // clients the harness has disconnected: later receptions are not recorded
 	last   map[int]int  // last version received per client
 	notify chan struct{}
+	lastEv time.Time     // time of the latest event other than poll markers
+	firstSignal time.Duration // latency of the first compile (start of the session to its broadcast)
 }
 
 func c44NewLog() *c44Log {
-	return &c44Log{t0: time.Now(), closed: map[int]bool{}, last: map[int]int{}, notify: make(chan struct{}, 1)}
+	return &c44Log{t0: time.Now(), lastEv: time.Now(), closed: map[int]bool{}, last: map[int]int{}, notify: make(chan struct{}, 1)}
 }
 
 // add appends under the lock; f (may be nil) runs while the lock is held, so that no other event can be
@@ -75,6 +77,12 @@ func (l *c44Log) add(e c44Ev, f func()) {
 		l.closed[e.C] = true
 	}
 	e.Ms = time.Since(l.t0).Milliseconds()
+	if e.Kind != "poll" {
+		l.lastEv = time.Now()
+	}
+	if e.Kind == "signal" && l.firstSignal == 0 {
+		l.firstSignal = time.Since(l.t0)
+	}
 	l.evs = append(l.evs, e)
 	if f != nil {
 		f()
@@ -446,8 +454,10 @@ func c44Session(r *Rng, sid int, class string) Case {
 		}
 	}
 
-	// quiescence: no more changes; wait until every connected client holds the latest version (bounded)
-	deadline := time.Now().Add(15 * time.Second)
+	// quiescence: no more changes; wait until every connected client holds the latest version, or until
+	// nothing at all has happened for `idle` (scaled by the compile latency this machine shows right now,
+	// so that a loaded machine does not look like a stuck watcher); then the harness declares quiescence.
+	hardDeadline := time.Now().Add(150 * time.Second)
 	for {
 		log.mu.Lock()
 		ok := true
@@ -456,8 +466,19 @@ func c44Session(r *Rng, sid int, class string) Case {
 				ok = false
 			}
 		}
+		idle := 8 * log.firstSignal
+		if log.firstSignal == 0 {
+			idle = 60 * time.Second
+		}
+		if idle < 2500*time.Millisecond {
+			idle = 2500 * time.Millisecond
+		}
+		if idle > 40*time.Second {
+			idle = 40 * time.Second
+		}
+		quiet := time.Since(log.lastEv) > idle
 		log.mu.Unlock()
-		if ok || time.Now().After(deadline) {
+		if ok || quiet || time.Now().After(hardDeadline) {
 			break
 		}
 		select {
